@@ -6,6 +6,7 @@
 mod expand;
 mod parse;
 mod pattern;
+mod oracle;
 mod readback;
 mod ser;
 use pattern::Pattern;
@@ -103,6 +104,37 @@ fn main() {
                     Ok(Outcome::Err(s)) => format!("err\t{s}{slow}"),
                     Ok(Outcome::Lex(s)) => format!("lex\t{}", ser::hex(s.as_bytes())),
                     Err(e) => format!("panic\t{}", ser::hex(panic_msg(e).as_bytes())),
+                }
+            }
+            "poracle" => {
+                // the front end as a whole (parse, then expand: both must not panic), together
+                // with the token trees and the table of what syn's own parsers do on every suffix
+                let src = unhex(f[1]);
+                let t0 = std::time::Instant::now();
+                let r = std::panic::catch_unwind(|| run_expand(&src, true));
+                let ms = t0.elapsed().as_millis();
+                let status = match r {
+                    Ok(Outcome::Ok(s)) => {
+                        let mut it = s.split('\t');
+                        let value = it.next().unwrap_or("");
+                        let tree = it.next().unwrap_or("");
+                        let valid = it.next().unwrap_or("");
+                        format!("ok\t{value}\t{tree}\t{valid}")
+                    }
+                    Ok(Outcome::Err(s)) => format!("err\t{s}"),
+                    Ok(Outcome::Lex(s)) => format!("lex\t{}", ser::hex(s.as_bytes())),
+                    Err(e) => format!("panic\t{}", ser::hex(panic_msg(e).as_bytes())),
+                };
+                match src.parse::<proc_macro2::TokenStream>() {
+                    Ok(ts) => {
+                        ser::set_input(&ts);
+                        let tabs = std::panic::catch_unwind(|| (oracle::trees(&ts), oracle::tables(&ts)));
+                        match tabs {
+                            Ok((tt, or)) => format!("{status}\tms={ms}\tTT\t({tt})\tOR\t({or})"),
+                            Err(e) => format!("{status}\tms={ms}\tTT\tfailed\tOR\t{}", ser::hex(panic_msg(e).as_bytes())),
+                        }
+                    }
+                    Err(_) => format!("{status}\tms={ms}"),
                 }
             }
             c => panic!("unknown command {c}"),
